@@ -270,6 +270,53 @@ def _work(case):
         return ("inconclusive", "harness: %r %s" % (e, traceback.format_exc()[-500:]), {})
 
 
+def inprocess_layer(rep, tier):
+    """harness/src/c01.rs: every text of length <= 3 (quick) / <= 4 (thorough) over the 25 metacharacters + blank + `a`,
+    in every style, alone and before a follower, through the real run_command_line with the exec interceptor: the monitor
+    sees the planned command lines.  Returns the shrunk flagged (style, text, follower) triples."""
+    harness, why_not = common.try_build_harness()
+    if harness is None:
+        rep.inconc("harness: the in-process harness did not build, in-process layer not run (%s)" % why_not)
+        return []
+    maxlen, allf = (4, 3) if tier == "thorough" else (3, 1)
+    n = common.NPROC
+    scratch = common.mkscratch("c01ip")
+    jobs = []
+    for i in range(n):
+        d = os.path.join(scratch, "w%d" % i)
+        os.makedirs(d)
+        for name in ("a", "aa", "b", ".h"):
+            open(os.path.join(d, name), "w").close()
+        jobs.append(common.FileProc([harness, "c01", str(maxlen), str(i), str(n), d, str(allf)]))
+    flagged = {}
+    tot = {"texts": 0, "lines": 0, "failing_lines": 0}
+    for p in jobs:
+        o, _ = p.communicate()
+        last = [l for l in o.decode("utf-8", "replace").split("\n") if l.startswith('{"maxlen"')]
+        if p.returncode != 0 or not last:
+            rep.inconc("harness: in-process shard exited %s without a summary" % p.returncode)
+            continue
+        d = json.loads(last[-1])
+        for k in tot:
+            tot[k] += d[k]
+        for smp in d["samples"][:1]:
+            if len(rep.samples) < 3:
+                rep.samples.append({"line": smp, "class": "inprocess"})
+        for m in d["minimal"]:
+            key = (m["style"], m["text"], m["follower"])
+            if key in flagged:
+                flagged[key]["count"] += m["count"]
+            else:
+                flagged[key] = m
+    common.rmtree(scratch)
+    rep.extra["inprocess_layer"] = dict(tot, bound="|t|<=%d over 27 symbols x 3 styles x {alone, followers}" % maxlen,
+                                        exhaustive=True, distinct_minimal_flagged=len(flagged))
+    rep.evaluations += tot["lines"]
+    rep.held += tot["lines"] - tot["failing_lines"]
+    rep.distinct |= {("ip", i) for i in range(tot["lines"])}
+    return list(flagged.values())
+
+
 def run(tier, seed):
     common.build_helpers()
     cicada = common.build_cicada("debug")
@@ -283,13 +330,21 @@ def run(tier, seed):
                        "multi-byte characters alone", "decoy files a, aa, b, .h and a sentinel HOME make wrongly "
                        "applied expansions visible"]
     cases, n_exh = gen_cases(tier, seed)
+    inproc = inprocess_layer(rep, tier)
+    # every minimal line the in-process explorer flags is executed by the real binary; that observation decides
+    for m in inproc:
+        cases.append({"args": [(m["text"], m["style"])], "follower": m["follower"], "lead": "", "sep": " ",
+                      "cls": "inprocess-flagged", "inprocess": m})
     results = common.pmap(_work, cases, init=_init, initargs=(cicada,), chunksize=16)
     for case, (verdict, sig, res) in zip(cases, results):
         nontriv = any(any(not c.isalnum() for c in t) or t == "" for t, _ in case["args"])
         rep.case(res.get("line", json.dumps(case)), nontriv,
                  sample={"line": res.get("line"), "class": case["cls"]} if case["cls"] == "random" else None)
         rep.count("cases_" + case["cls"])
-        if verdict == "held":
+        if verdict == "held" and case["cls"] == "inprocess-flagged":
+            # planned differently in-process, yet the real program received the prescribed arguments: not a verdict
+            rep.inconc("in-process plan differs (%s) but the real execution is as prescribed" % case["inprocess"]["symptom"], res)
+        elif verdict == "held":
             rep.hold()
         elif verdict == "violated":
             rep.violate(sig, case, res)
